@@ -197,6 +197,16 @@ class DENMTransmissionManagement:
         self.vehicle_data = vehicle_data
         self.denm_coder = denm_coder
         self.sequence_number = 0
+        self._sequence_number_lock = threading.Lock()
+
+    def _next_sequence_number(self) -> int:
+        """
+        Allocate the actionId sequence number of a new event (one per DEN request).
+        """
+        with self._sequence_number_lock:
+            sequence_number = self.sequence_number
+            self.sequence_number = (self.sequence_number + 1) % 65536
+        return sequence_number
 
     def request_denm_sending(self, denm_request: DENRequest) -> None:
         """
@@ -211,6 +221,7 @@ class DENMTransmissionManagement:
         Request to send a single DENM message with the Collision Risk Warning data.
         """
         crw_denm = DecentralizedEnvironmentalNotificationMessage()
+        crw_denm.sequence_number = self._next_sequence_number()
         crw_denm.fullfill_with_vehicle_data(self.vehicle_data)
         crw_denm.fullfill_with_collision_risk_warning(denm_request)
         self.transmit_denm(crw_denm)
@@ -225,8 +236,11 @@ class DENMTransmissionManagement:
             DENM Request object.
         """
         transmission_time = 0
+        # All repetitions of one event share its actionId; every event gets a new one
+        sequence_number = self._next_sequence_number()
         while transmission_time < denm_request.time_period:
             new_denm = DecentralizedEnvironmentalNotificationMessage()
+            new_denm.sequence_number = sequence_number
             new_denm.fullfill_with_vehicle_data(self.vehicle_data)
             new_denm.fullfill_with_denrequest(denm_request)
             self.transmit_denm(new_denm)
